@@ -34,7 +34,7 @@ MUTANTS = {
         {"id": "encoder-shift", "file": OPS, "old": "let first_byte = ((self.directive as u8) << 4) | (self.directive_subtype_code as u8);", "new": "let first_byte = ((self.directive as u8) << 3) | (self.directive_subtype_code as u8);", "rule": "C05-L1"},
         {"id": "tag-crosswired", "file": OPS, "old": "            Self::FlowLabel(_) => MetadataTLVFieldCode::FlowLabel,", "new": "            Self::FlowLabel(_) => MetadataTLVFieldCode::EntityID,", "rule": "C05-L4"},
         {"id": "length-byte-forgotten", "file": OPS, "old": "        // message len\n        1\n        // message\n        + self.message_text.len() as u16", "new": "        // message\n        self.message_text.len() as u16", "rule": "C05-L3"},
-        {"id": "id-mask-two-bits", "file": UOPS, "old": "impl PDUEncode for RemoteSuspendRequest {\n    type PDUType = Self;\n\n    fn encoded_len(&self) -> u16 {\n        1 + self.source_entity_id.encoded_len() + self.transaction_sequence_number.encoded_len()\n    }\n\n    fn encode(self) -> Vec<u8> {\n        let first_byte = (((self.source_entity_id.encoded_len() as u8 - 1u8) & 0x7) << 4)", "new": "impl PDUEncode for RemoteSuspendRequest {\n    type PDUType = Self;\n\n    fn encoded_len(&self) -> u16 {\n        1 + self.source_entity_id.encoded_len() + self.transaction_sequence_number.encoded_len()\n    }\n\n    fn encode(self) -> Vec<u8> {\n        let first_byte = (((self.source_entity_id.encoded_len() as u8 - 1u8) & 0x3) << 4)", "rule": "C05-L1"},
+        {"id": "id-mask-two-bits", "file": UOPS, "old": "impl PDUEncode for RemoteSuspendRequest {\n    type PDUType = Self;\n\n    fn encoded_len(&self) -> u16 {\n        1 + self.source_entity_id.encoded_len() + self.transaction_sequence_number.encoded_len()\n    }\n\n    fn encode(self) -> Vec<u8> {\n        let mut buffer: Vec<u8> = vec![];\n\n        let first_byte = (((self.source_entity_id.encoded_len() as u8 - 1u8) & 0x7) << 4)", "new": "impl PDUEncode for RemoteSuspendRequest {\n    type PDUType = Self;\n\n    fn encoded_len(&self) -> u16 {\n        1 + self.source_entity_id.encoded_len() + self.transaction_sequence_number.encoded_len()\n    }\n\n    fn encode(self) -> Vec<u8> {\n        let mut buffer: Vec<u8> = vec![];\n\n        let first_byte = (((self.source_entity_id.encoded_len() as u8 - 1u8) & 0x3) << 4)", "rule": "C05-L1"},
     ],
     "C06": [
         {"id": "unwrap-on-input", "file": OPS, "old": "        let possible_status = u8_buff[0] & 0x3;\n            FileStatusCode::from_u8(possible_status)\n                .ok_or(PDUError::InvalidFileStatus(possible_status))?", "new": "        let possible_status = u8_buff[0] & 0x7;\n            FileStatusCode::from_u8(possible_status).unwrap()", "rule": "C06-P1"},
@@ -42,7 +42,7 @@ MUTANTS = {
         {"id": "wide-allocation", "file": HDR, "old": "    let mut vector = vec![0u8; length as usize];", "new": "    let mut vector = vec![0u8; (length as usize) << 24];", "rule": "C06-P3"},
     ],
     "C07": [
-        {"id": "length-from-other-flag", "file": S, "old": "        let payload = PDUPayload::FileData(data);\n\n        let payload_len: u16 = payload.encoded_len(self.config.file_size_flag);", "new": "        let payload = PDUPayload::FileData(data);\n\n        let payload_len: u16 = payload.encoded_len(FileSizeFlag::Small);", "rule": "C07-S1"},
+        {"id": "length-from-other-flag", "file": S, "old": "        let payload = PDUPayload::FileData(data);\n\n        let payload_len: u16 = payload.encoded_len(self.config.file_size_flag);", "new": "        let payload = PDUPayload::FileData(data);\n\n        let payload_len: u16 = payload.encoded_len(cfdp_core::pdu::FileSizeFlag::Small);", "rule": "C07-S1"},
         {"id": "no-cursor-restore", "file": S, "old": "                        handle\n                            .seek(SeekFrom::Start(current_pos))\n                            .map_err(FileStoreError::IO)?;\n                        Ok(())", "new": "                        let _ = (handle, current_pos);\n                        Ok(())", "rule": "C07-S3"},
         {"id": "eof-size-from-progress", "file": S, "old": "                file_size: self.metadata.file_size,\n                fault_location,", "new": "                file_size: self.sent_file_size,\n                fault_location,", "rule": "C07-S5"},
         {"id": "names-crosswired", "file": S, "old": "            source_filename: self.metadata.source_filename.clone(),\n            destination_filename: self.metadata.destination_filename.clone(),", "new": "            source_filename: self.metadata.destination_filename.clone(),\n            destination_filename: self.metadata.source_filename.clone(),", "rule": "C07-S5"},
@@ -62,16 +62,18 @@ MUTANTS = {
         {"id": "no-clamp", "file": SEG, "old": "                    std::cmp::max(v[k - 1].1, start)", "new": "                    v[k - 1].1", "rule": "C09-G5"},
     ],
     "C10": [
+        {"id": "cancelled-runs-handler", "file": S, "old": "            SendState::Cancelled => {\n                if self.timer.inactivity.limit_reached() {\n                    self.abandon();\n                }", "new": "            SendState::Cancelled => {\n                if self.timer.inactivity.limit_reached() {\n                    self.handle_fault(Condition::InactivityDetected)?;\n                }", "rule": "C10-K4"},
         {"id": "finalize-after-cancel", "file": R, "old": "        if self.recv_state == RecvState::ReceiveData\n            && self.metadata.is_some()\n            && self.eof_received()", "new": "        if self.recv_state != RecvState::Finished\n            && self.metadata.is_some()\n            && self.eof_received()", "rule": "C04-F"},
         {"id": "error-eof-finalizes", "file": R, "old": "                                } else {\n                                    // Any other condition is essentially a\n                                    // CANCEL operation\n                                    self._cancel();\n                                }\n                                Ok(())", "new": "                                } else {\n                                    self.check_finished()?;\n                                }\n                                Ok(())", "rule": "C10-K3"},
     ],
     "C11": [
+        {"id": "reap-by-destination", "file": L, "old": "            transaction.send_report(None)?;\n            Ok(transaction.id())", "new": "            transaction.send_report(None)?;\n            Ok(TransactionID(transaction.id().1, transaction.id().1))", "rule": "C11-I5"},
         {"id": "fatal-unable-to-resume", "file": L, "old": "                        Err(error @ DaemonError::UnableToResume(_))  => {", "new": "                        Err(error @ DaemonError::SpawnSend(_))  => {", "rule": "C11-I1"},
         {"id": "index-routing-map", "file": L, "old": "                    if let Some(transport) = self.transport_tx_map.get(&transport_entity).cloned() {\n                        let (id, new_channel, handle)", "new": "                    if let Some(transport) = Some(self.transport_tx_map[&transport_entity].clone()) {\n                        let (id, new_channel, handle)", "rule": "C11-I2"},
         {"id": "second-counter-writer", "file": L, "old": "                    self.transaction_handles.push(handle);\n                    self.transaction_channels.insert(id, sender);", "new": "                    self.transaction_handles.push(handle);\n                    self.sequence_num.increment();\n                    self.transaction_channels.insert(id, sender);", "rule": "C11-I3"},
     ],
     "C12": [
-        {"id": "pass-through", "file": FS, "old": "        let rel = path.strip_prefix(&self.root_path).unwrap_or(path);\n        self.root_path.join(normalize_path(rel))", "new": "        if path.starts_with(&self.root_path) {\n            return path.to_path_buf();\n        }\n        self.root_path.join(normalize_path(path))", "rule": "C12-R1"},
+        {"id": "pass-through", "file": FS, "old": "        let relative = path.strip_prefix(&self.root_path).unwrap_or(path);\n        self.root_path.join(normalize_path(relative))", "new": "        if path.starts_with(&self.root_path) {\n            return path.to_path_buf();\n        }\n        self.root_path.join(normalize_path(path))", "rule": "C12-R1"},
     ],
     "C13": [
         {"id": "success-without-performing", "file": FS, "old": "                false => FileStoreStatus::DenyFile(DenyStatus::NotAllowed),", "new": "                false => FileStoreStatus::DenyFile(DenyStatus::Successful),", "rule": "C13-Q1"},
@@ -105,6 +107,7 @@ MUTANTS = {
         {"id": "unack-acks-eof", "file": R, "old": "                                self.condition = eof.condition;\n                                self.checksum = Some(eof.checksum);\n\n                                self.send_indication(Indication::EoFRecv(self.id()));\n\n                                if self.condition == Condition::NoError {\n                                    self.check_file_size(eof.file_size)?;\n                                    self.file_size = Some(eof.file_size);\n                                    // a file size fault", "new": "                                self.condition = eof.condition;\n                                self.prepare_ack_eof();\n                                self.checksum = Some(eof.checksum);\n\n                                self.send_indication(Indication::EoFRecv(self.id()));\n\n                                if self.condition == Condition::NoError {\n                                    self.check_file_size(eof.file_size)?;\n                                    self.file_size = Some(eof.file_size);\n                                    // a file size fault", "rule": "C18-U1"},
     ],
     "C19": [
+        {"id": "resume-bare-start", "file": R, "old": "            RecvState::Finished | RecvState::Cancelled => self.timer.reset_ack(),\n        }\n        self.state = TransactionState::Active;", "new": "            RecvState::Finished | RecvState::Cancelled => self.timer.ack.start(),\n        }\n        self.state = TransactionState::Active;", "rule": "C19-C"},
         {"id": "gate-ignores-suspension", "file": S, "old": "        // nothing is transmitted while the transaction is suspended\n        if self.state == TransactionState::Suspended {\n            return false;\n        }\n        self.prompt.is_some()", "new": "        self.prompt.is_some()", "rule": "C19-A"},
     ],
     "C20": [
